@@ -328,3 +328,22 @@ End Proofs.
 Lemma bp_row_ok' (A : Type) (e1 e2 sx : nat) (gpx : list Z -> list Z -> nat -> A) : 1 <= e1 -> 1 <= e2 -> 1 <= sx ->
   bpfn_ok A e1 e2 sx gpx (bp_row A e1 e2 sx gpx).
 Proof. intros. apply (bp_row_ok A A e1 e2 sx 1 gpx (fun x => x)); auto. Qed.
+
+Lemma bi_planar_pairing (A B : Type) (e1 e2 sx sy : nat) (gpx : list Z -> list Z -> nat -> A) (cv : A -> B) :
+  1 <= e1 -> 1 <= e2 -> 1 <= sx -> 1 <= sy ->
+  forall (W H : nat) (data : list Z), 1 <= W -> length data = W * e1 * H + cdiv W sx * e2 * cdiv H sy ->
+  forall (conv : bool) (bufpx : nat), 1 <= H -> (conv = true -> sx <= bufpx) ->
+  bp_full_image A B e1 e2 sx sy cv (bp_row A e1 e2 sx gpx) conv bufpx W H data = Some (bp_spec_image A B e1 e2 sx sy gpx cv W H data).
+Proof. intros. apply bp_full_is_spec; auto. apply bp_row_ok'; auto. Qed.
+
+Lemma sub_sampled_2x1_pairing (A B : Type) (bpb : nat) (dec : list Z -> list A) (cv : A -> B) : 1 <= bpb -> (forall b, length (dec b) = 2 * 1) ->
+  forall (conv : bool) (bbpp W H : nat) (data : list Z) x y d, (conv = true -> 1 <= bbpp /\ 2 * 1 * bbpp <= 3072) ->
+  1 <= W -> 1 <= H -> length data = cdiv W 2 * bpb * cdiv H 1 -> x < W -> y < H ->
+  exists img, full_image A B 2 1 bpb cv (p2x1_row A dec) conv 3072 bbpp W H data = Some img /\
+    nth x (nth y img []) (cv d) = cv (nth (x mod 2) (dec (slice ((y * cdiv W 2 + x / 2) * bpb) bpb data)) d).
+Proof.
+  intros Hb Hdec conv bbpp W H data x y d Hbuf HW HH Hdata Hx Hy.
+  exists (spec_image A B 2 1 bpb dec cv W H data). split.
+  - apply (full_image_is_spec A B 2 1 bpb dec cv); auto. apply p2x1_row_ok. assumption.
+  - rewrite (spec_image_pixel A B 2 1 bpb dec cv) by (auto; lia). rewrite Nat.mod_1_r, Nat.div_1_r. reflexivity.
+Qed.
